@@ -62,10 +62,10 @@ Fixpoint until_nl_f (fuel : nat) (s : sc) (acc : str) : str * sc :=
 Definition scan_comment (s : sc) : (token * str) * sc :=
   let s1 := adv s in
   let '(txt, s2) := until_nl_f (fuel_of s1) s1 [] in
-  if sstate_eqb (st_of s2) TextBlock then ((COMMENT, txt), s2)
+  if sstate_eqb (st_of s2) TextBlock || sstate_eqb (st_of s2) SEnd then ((COMMENT, txt), s2)
   else
     let s3 := if is_c NL (cur s2) then adv s2 else s2 in
-    ((COMMENT, txt), set_state BlockStart s3).
+    ((COMMENT, txt), if sstate_eqb (st_of s3) SEnd then s3 else set_state BlockStart s3).
 
 (* scanInterpolation *)
 Fixpoint interp_loop (fuel : nat) (s : sc) (acc : str) : option str * sc :=
@@ -235,10 +235,11 @@ Definition scan1 (s : sc) : (token * list rune * str) * sc :=
   let '((tok, lit), s1) := scan_dispatch 2 s0 in
   ((tok, snd s0, lit), s1).
 
-(* line of a token: s.line at Scan entry = 1 + newlines read so far, the current character included *)
+(* line of a token: 1 + the newlines strictly before the current character at Scan entry
+   (s.line counts the current character too; Scan subtracts one when it is a newline) *)
 Fixpoint count_nl (l : list rune) : nat :=
   match l with [] => O | c :: r => (if c =? NL then 1 else 0) + count_nl r end%nat.
-Definition line_at (total : nat) (rest_at_entry : list rune) : nat := (1 + total - count_nl (tl rest_at_entry))%nat.
+Definition line_at (total : nat) (rest_at_entry : list rune) : nat := (1 + total - count_nl rest_at_entry)%nat.
 
 (* all tokens (for comparison with the Go scanner) *)
 Fixpoint scan_all (fuel : nat) (s : sc) : list (token * list rune * str) :=
